@@ -120,6 +120,14 @@ func familyByName(name string) *wgen.Family {
 	if name == "F1" {
 		return wgen.F1()
 	}
+	switch name {
+	case "F15ops":
+		return wgen.F15Ops()
+	case "F15acc":
+		return wgen.F15Access()
+	case "F15zero":
+		return wgen.F15Zero()
+	}
 	if name == "F3" || name == "F3t" {
 		return wgen.F3(name == "F3t")
 	}
